@@ -20,14 +20,26 @@ the kept examples K (supplied, not discarded by None / remove_empties):
   unique     no r occurs twice
   count      len(R) <= number of distinct elements of K   (so R == [] when K
              is empty: clause `none-for-empty-input`)
-  tag        R(tag=True) and R(tag=False) have the same length and together
-             match exactly the same supplied strings (also under pruning)
+  tag        R(tag=True) and R(tag=False) have the same length, together
+             match exactly the same supplied strings (also under pruning), and
+             expression by expression - in some order, no position demanded -
+             match the same supplied strings (equal multisets of match
+             vectors: "changes only the grouping")
+A frequency-mapping entry with count 0 was supplied zero times: it is not an
+example (an all-zero mapping is an empty input).
+Round 3 added the layers `uclasses`, `meta-roles`, `zero-counts`,
+`sampled-counts`, `real-random` (see mc.checks.c03); on the real random
+module the tagged call follows the untagged one WITHOUT resetting the global
+generator when an integer seed is given (the seed is what makes the two
+reproducible), and from the same pre-state when seed is None.
 Nothing is demanded about WHICH examples survive pruning, nor that
 len(R) <= max_patterns (not part of the statement).
 
 Violation signatures: `<clause-kind>:<root cause>` where the root cause is
 established by the counterfactual substitution of C03 (bracket:{^,-},
-nonascii-digit:U+XXXX) or, failing that, the character classes involved.
+nonascii-digit:U+XXXX, zero-count-entry) or, failing that, the character
+classes involved; `real-random:<tag-kind>:seed=<zero|nonzero|None>` for a
+tagged/untagged difference on the real random module.
 """
 from mc.engine import Res, Chooser, Diverged, explore_choices
 from mc import rex_alphabet as A
@@ -61,16 +73,24 @@ class C13(RexDriver):
             'two-shape sets with frequency ties x pruning options x vlf) '
             'each run with tag off and on, and for the sampled path '
             '(set of 3-5 strings, Size in {1,2}^3, pruning point) with every '
-            'sample answer explored; an evaluation is one extract/pdextract '
-            'call; a case is non-trivial when at least one evaluation '
+            'sample answer explored (also frequency mappings with counts '
+            'over {1,2,3}); Unicode general-category representatives, regex '
+            'metacharacter roles x full_escape, zero-count mapping entries, '
+            'and the real random module x seeds {0,1,None} (round 3, as '
+            'C03); an evaluation is one extract/pdextract call; a case is non-trivial when at least one evaluation '
             'returned at least one expression')
     assumptions = [
         'alphabets, set sizes and deviation bounds as listed in the rule; '
         'java / posix dialects and lone surrogates excluded',
         '"distinct examples" is read as distinct supplied, non-discarded '
         'strings (the weaker bound when stripping merges examples)',
-        'tag equivalence: equal number of expressions and equal set of '
-        'supplied strings matched (not position by position)',
+        'tag equivalence: equal number of expressions, equal set of '
+        'supplied strings matched, and equal multisets of per-expression '
+        'match vectors over the supplied strings (not position by position)',
+        'zero-count mapping entries are not examples; negative counts are '
+        'outside (documented as non-negative); real-random layer: global '
+        'generator pre-states random.Random(11|12).getstate(), restored '
+        'afterwards; full_escape enumerated in the meta-roles layer only',
         'pdextract accepts no options (no tag): pandas forms are checked '
         'for the per-expression clauses only, at default options',
         'the tagged sampled run is given the same random.sample answers as '
@@ -94,7 +114,8 @@ class C13(RexDriver):
               '2 deviations, tag off/on; ASCII singles within 1 deviation'),
              ('n2-dev1', 'all pairs of the 157 strings over Sigma_q (L<=2) x '
               'options (incl. pruning) within 1 deviation, tag off/on; dict '
-              'and pandas forms at the default'),
+              'and pandas object-Series forms at the default (categorical '
+              'and two-Series forms: n01-full, wide)'),
              ('n2-dev2-sub', 'all pairs of the 40-string sub-alphabet x '
               'options within 2 deviations, tag off/on'),
              ('n2-structured', 'all pairs of structured examples x options '
@@ -153,22 +174,22 @@ class C13(RexDriver):
                 os.environ.get('PYTHONHASHSEED', '0') not in ('0', ''):
             return
         if layer == 'n01-full':
-            yield {'ex': [], 'pts': 'full', 'forms': 'all'}
-            yield {'ex': [None], 'pts': 'full', 'forms': 'all'}
+            yield {'ex': [], 'pts': 'full', 'forms': 'all-maps'}
+            yield {'ex': [None], 'pts': 'full', 'forms': 'all-maps'}
             seen = set()
             for s in self.pool_q() + A.STRUCTURED + A.LONG_STRUCTURED:
                 if s not in seen:
                     seen.add(s)
-                    yield {'ex': [s], 'pts': 'full', 'forms': 'all'}
+                    yield {'ex': [s], 'pts': 'full', 'forms': 'all-maps'}
             for s in ASCII_SINGLES:
                 if s not in seen:
                     seen.add(s)
                     yield {'ex': [s], 'pts': 'dev1', 'forms': 'list'}
             for xs in A.STRUCTURED_SETS:
-                yield {'ex': list(xs), 'pts': 'full', 'forms': 'all'}
+                yield {'ex': list(xs), 'pts': 'full', 'forms': 'all-maps'}
         elif layer == 'n2-dev1':
             for xs in A.example_sets(self.pool_q(), 2):
-                yield {'ex': xs, 'pts': 'dev1', 'forms': 'all'}
+                yield {'ex': xs, 'pts': 'dev1', 'forms': 'lite'}
         elif layer == 'n2-dev2-sub':
             for xs in A.example_sets(A.sub_alphabet(40), 2):
                 yield {'ex': xs, 'pts': 'dev2', 'forms': 'list'}
@@ -254,19 +275,28 @@ class C13(RexDriver):
             'x 12 option points', 'x {default, variableLengthFrags, + extra '
             'letters _-.}, tag off/on')
         d['meta-roles'] = d['meta-roles'].replace(
-            'x 12 option points', 'x {portable, perl, grep, extra letters '
-            '-, _-.} x variableLengthFrags off/on, tag off/on,')
+            'x 8 option points', 'x {portable, perl, grep, extra letters '
+            '-, _-.; variableLengthFrags with the default and _-.}, tag '
+            'off/on,')
         d['zero-counts'] += ('; incl. pruning options; an all-zero '
                              'dictionary is an empty input')
-        d['sampled-counts'] += ('; tagged run replaying the same answers; '
-                                'default and min_strings_per_pattern=2')
+        d['sampled-counts'] = (
+            'E2: frequency dictionaries with counts over {1,2,3} on the '
+            'sampled path: all 27 count vectors for triples of a 6-string '
+            'pool (uniform and cyclic ones also with '
+            'min_strings_per_pattern=2), uniform and cyclic vectors for its '
+            'sets of 4 x the 4 Size settings with one sampled attempt, every '
+            'sample answer, tagged run replaying the same answers; dict / '
+            'Counter / OrderedDict')
         d['real-random'] += ('; tag off then on: for an integer seed on '
                              'whatever state the first call left, for seed '
                              'None from the same pre-state')
         return [(k, d[k]) for (k, _) in RexDriver.round3_layers(self)]
 
-    def sampled_count_cases(self, prune=None):
-        for c in RexDriver.sampled_count_cases(self, {}):
+    def sampled_count_cases(self, prune=None, settings=None, sizes=(4,)):
+        settings = [st for st in A.SIZE_SETTINGS('quick')
+                    if st['max_sampled_attempts'] == 1]
+        for c in RexDriver.sampled_count_cases(self, {}, settings, sizes):
             yield c
             if c['form'] == 'dict' and len(c['ex']) == 3 and \
                     c['counts'] in A.count_vectors(3):
@@ -277,7 +307,9 @@ class C13(RexDriver):
             for xs in A.example_sets(pool, n):
                 for st in settings:
                     yield {'ex': xs, 'size': st, 'seed': None, 'prune': {}}
-                    if n in sizes_all:
+                    # pruning happens after the sampled loop has ended: the
+                    # pruning points run with one sampled attempt only
+                    if n in sizes_all and st['max_sampled_attempts'] == 1:
                         for p in PRUNE_POINTS:
                             yield {'ex': xs, 'size': st, 'seed': None,
                                    'prune': p}
@@ -347,8 +379,9 @@ class C13(RexDriver):
             return ([('dict', o) for o in self.points(pts)]
                     + [(f, d) for f in A.DICT_FORMS[1:]])
         out = [('list', o) for o in self.points(pts)]
-        if forms == 'all':
-            out += [(f, d) for f in A.DICT_FORMS]
+        if forms in ('all', 'all-maps'):
+            out += [(f, d) for f in (A.DICT_FORMS if forms == 'all-maps'
+                                     else A.DICT_FORMS[:1])]
             out += [('pd:%s' % k, d) for k in A.PANDAS_KINDS]
         elif forms == 'lite':
             out.append(('dict', d))
@@ -606,6 +639,7 @@ class C13(RexDriver):
         ex, size, seed = self.case_examples(case), case['size'], case['seed']
         form = case['form']
         opts = dict((k, v[0]) for (k, v) in self.axes_notag().items())
+        opts.update(case.get('opts') or {})
         supplied = self.supplied(ex, form)
         kept = M.kept_examples(supplied)
         results = {}
@@ -641,7 +675,8 @@ class C13(RexDriver):
                 continue
             seen.add((kind, clause))
             detail = {'examples': supplied, 'form': form, 'size': size,
-                      'seed': seed, 'global_prestate': case['real']}
+                      'seed': seed, 'global_prestate': case['real'],
+                      'options': A.opt_key(opts)}
             detail.update(info)
             if kind.startswith('tag-'):
                 # does the difference need the real generator?  (with the
